@@ -148,11 +148,13 @@ def case_s():
             nroles = draw(st.integers(1, 4))
             roles = draw(st.lists(st.sampled_from(c07.ROLES), min_size=nroles, max_size=nroles, unique=True))
             for i, r in enumerate(roles):
-                kind = draw(st.sampled_from(["this", "other", "other", "default-same", "default-moved", "near-miss"]))
+                kind = draw(st.sampled_from(["this", "other", "other", "default-same", "default-moved", "near-miss", "near-miss-class"]))
                 if kind == "this":
                     pair = [v, c]
                 elif kind == "other":
                     pair = [draw(vendor), draw(cls)]
+                elif kind == "near-miss-class":
+                    pair = [v, c.swapcase() if c.swapcase() != c else c + "X"]  # same vendor, class differs only by case / one char
                 elif kind == "default-same" and r in c07.DEFAULTS[soc]:
                     pair = list(c07.DEFAULTS[soc][r])
                 elif kind == "default-moved":
